@@ -117,3 +117,91 @@ def derive_reject(ctxt, step, vc):
         rp = os.path.join(vc.WORK, "replay", "%s-s%d-prog-%d.json" % (ctxt["prop"], ctxt["seed"], j))
         json.dump(dict(property=ctxt["prop"], seed=ctxt["seed"], tier=ctxt["tier"], step="programs", record=rec), open(rp, "w"))
         ctxt["violations"].append(rp)
+
+
+# ------------------------------------------------------------------ C20: feature configurations
+
+OPTIONALS = ["derive", "bit-vec", "bytes", "generic-array", "max-encoded-len"]
+CONFIGS_QUICK = [
+    ("default", None),                                             # std + chain-error + every optional
+    ("nostd-all", ",".join(OPTIONALS)),                            # no default features: no_std + alloc
+    ("nostd-chain-all", ",".join(["chain-error"] + OPTIONALS)),    # no_std + chain-error
+]
+CONFIGS_THOROUGH = CONFIGS_QUICK + [
+    ("nostd-none", ""), ("std-none", "std"), ("nostd-chain-none", "chain-error"),
+] + [("nostd-" + o, o) for o in OPTIONALS]
+
+
+def feature_builds(ctxt, step, vc):
+    """C20: the same deterministic corpus through one build of the harness per feature configuration;
+    every build's trace is validated by TLC against the same specification, and the records are
+    compared across builds (by type name and case number)."""
+    import hashlib
+    workdir = ctxt["workdir"]
+    configs = CONFIGS_THOROUGH if ctxt["tier"] == "thorough" else CONFIGS_QUICK
+    digests = {}
+    total_acc = 0
+    samples = []
+    for name, feats in configs:
+        tdir = os.path.join(VERIF, "harness", "target-" + name)
+        binary, bt = vc.build_harness(features=feats, target_dir=tdir)
+        trace = os.path.join(workdir, "trace-%s.ndjson" % name)
+        cmd = [binary, "gen", "--prop", "C20", "--tier", ctxt["tier"], "--seed", str(ctxt["seed"]), "--out", trace]
+        if ctxt.get("type_filter"):
+            cmd += ["--types", ctxt["type_filter"]]
+        rc, out, err = vc.run(cmd, cwd=workdir, timeout=1800)
+        if rc != 0:
+            sys.stdout.write((out + err)[-2000:])
+            if rc < 0 or rc in (134, 139):
+                rp = os.path.join(vc.WORK, "replay", "C20-%s-crash.json" % name)
+                json.dump(dict(property="C20", config=name, crash=True, cmd=cmd), open(rp, "w"))
+                ctxt["violations"].append(rp)
+                continue
+            vc.tool_error("harness gen failed in configuration %s" % name)
+        n, nt, smp, per_type = vc.trace_stats(trace)
+        acc, rej = vc.validate_trace(trace, "C20", "Trace_Codec", workdir, "cfg-" + name)
+        total_acc += acc
+        vc.log("CONFIG %s (features: %s): built in %.0fs, %d records, %d accepted, %d rejected" %
+               (name, "default" if feats is None else (feats or "<none>"), bt, n, acc, len(rej)))
+        for j, rec in enumerate(rej):
+            rp = os.path.join(vc.WORK, "replay", "C20-s%d-%s-%d.json" % (ctxt["seed"], name, j))
+            json.dump(dict(property="C20", seed=ctxt["seed"], tier=ctxt["tier"], config=name, record=rec), open(rp, "w"))
+            ctxt["violations"].append(rp)
+        # digest per (type, case number) for the cross-configuration comparison
+        d = {}
+        cnt = {}
+        with open(trace) as f:
+            for line in f:
+                r = json.loads(line)
+                key = (r.get("k"), r.get("tn"))
+                i = cnt.get(key, 0)
+                cnt[key] = i + 1
+                obs = json.dumps([r.get("out"), r.get("res"), r.get("v"), r.get("base", {}).get("res"), r.get("base", {}).get("v"),
+                                  r.get("base", {}).get("n"), r.get("inp")], sort_keys=True)
+                d[(r.get("k"), r.get("tn"), i)] = hashlib.sha1(obs.encode()).hexdigest()
+        digests[name] = d
+        ctxt["evidence"].setdefault("configurations", []).append(dict(name=name, features=feats, records=n, accepted=acc))
+        ctxt["evidence"]["extra_evaluations"] = ctxt["evidence"].get("extra_evaluations", 0) + n
+        ctxt["evidence"]["extra_distinct"] = max(ctxt["evidence"].get("extra_distinct", 0), nt)
+        if not samples:
+            samples = smp[:3]
+    ctxt["evidence"]["extra_validated"] = total_acc
+    ctxt["evidence"]["samples"] = samples
+    # cross-configuration comparison (both configurations named)
+    base_name = configs[0][0]
+    base = digests.get(base_name, {})
+    compared = 0
+    for name, d in digests.items():
+        if name == base_name:
+            continue
+        for key, h in d.items():
+            if key in base:
+                compared += 1
+                if base[key] != h:
+                    rp = os.path.join(vc.WORK, "replay", "C20-s%d-diff-%s.json" % (ctxt["seed"], name))
+                    json.dump(dict(property="C20", seed=ctxt["seed"], tier=ctxt["tier"], configs=[base_name, name],
+                                   record=dict(k=key[0], tn=key[1], case=key[2])), open(rp, "w"))
+                    ctxt["violations"].append(rp)
+                    vc.log("DIFF between %s and %s at %s" % (base_name, name, key))
+                    break
+    ctxt["evidence"]["records_compared_across_configurations"] = compared
